@@ -55,7 +55,7 @@ PROPS = {
     ),
     "C20": dict(
         module="YkProps.C20",
-        leancheck=["YkModel.Ring", "YkModel.Stream", "YkProofs.Ring", "YkProps.C20"],
+        leancheck=["YkModel.Ring", "YkModel.Stream", "YkProofs.Ring", "YkProofs.Stream", "YkProps.C20"],
         runs=[dict(comp="ring", quick=2400, thorough=64000), dict(comp="stream", quick=640, thorough=8000)],
         classify=cls_default,
         nontrivial=lambda line: '"op":"reset"' not in line and '"op":"sreset"' not in line,
@@ -73,6 +73,26 @@ PROPS = {
         level_note="trusted: Lean kernel; hand-written Ring/Store/Stream models tied by correspondence only; ids < 2^63; channel delivery; REST glue not modelled",
         technique="Lean 4 refinement proof (ring buffer -> abstract history) + differential correspondence on the real code",
         design_ref="DESIGN.md section 4 C20",
+    ),
+    "C01": dict(
+        module="YkProps.C01",
+        leancheck=["YkModel.Node", "YkProofs.Node", "YkProps.C01"],
+        runs=[dict(comp="node", quick=3200, thorough=100000)],
+        classify=cls_default,
+        nontrivial=lambda line: '"op":"reset"' not in line and '"op":"setSchedulable"' not in line,
+        rule="node: random histories (<=50 ops) of every public ledger operation of objects.Node — TryAddAllocation, AddAllocation (forced, foreign and not), RemoveAllocation, UpdateForeignAllocation, "
+             "in-place resource update (SetAllocatedResource + UpdateAllocatedResource as partition.UpdateAllocation does), ReplaceAllocation with delta = real - placeholder, SetCapacity, SetOccupiedResource, SetSchedulable — "
+             "over sparse 3-type vectors; after every op the complete node state is dumped and (1) compared with the model, (2) the ledger clauses and tryAdd-fits / available-non-negative are evaluated on the dumped state. "
+             "non-trivial = not a reset/setSchedulable line; distinct = distinct protocol lines",
+        trusted=["exact integer arithmetic in the node model (no quantity saturates; C18 proves the calculators exact inside int64)",
+                 "bind guards (registered, schedulable, reservation, required node, predicate) are decided on the full-stack model, not here"],
+        assumptions=["callers meet the contract Pre of YkProps/C01.lean (fresh allocation keys on add; replacement delta = real - placeholder) — as partition.go / application.go do"],
+        level_text="Lean 4 invariant proof over all histories of node operations: allocated = sum of bound allocations and available = capacity - allocated - occupied (cached field updated as the code updates it) are preserved by each of the ten node operations and hold in every reachable state; "
+                   "TryAddAllocation succeeds only if the ask fits in available, a refused add changes nothing, scheduler operations keep available non-negative (forced ones shown to break it by witnesses). "
+                   "Tie: correspondence of the hand-written Node model against objects.Node with the same clauses evaluated on the implementation's dumped state (ledger_exec_iff links the executable clauses to the theorem).",
+        level_note="trusted: Lean kernel; hand-written Node model tied by correspondence only; exact arithmetic (NoSat); caller contract Pre; the bind-guard clauses are covered by the full-stack check once built",
+        technique="Lean 4 invariant proof (induction over node operation histories) + differential correspondence on objects.Node",
+        design_ref="DESIGN.md section 4 C01",
     ),
 }
 
